@@ -488,6 +488,17 @@ def _parallel_results_used(env):
     return m.ob_results_are_used(env)
 
 
+def _isolation(site):
+    def body(env):
+        import harness.c13 as m   # resolved at call time
+        return m._mk_isolation(site)(env)
+    return body
+
+
+for _site in ("distributePointsNonorthogonal", "addPointAtWallToContours"):
+    OBLIGATIONS.append(Ob("refined_contours_survive_process_isolation_" + _site, _isolation(_site), tier="quick", family="refinement",
+                          desc="the refined (on-surface) contours produced by tasks in worker processes are the ones MeshRegion.%s keeps (shared with C13)" % _site,
+                          encodes=["hypnotoad.core.mesh:MeshRegion." + _site], bounds="2 contours of 4 points; wall at lower/upper/both ends", max_paths=400))
 OBLIGATIONS.append(Ob("refined_contours_are_kept", _parallel_results_used, tier="quick", family="refinement",
                       desc="the contours returned by the (possibly multi-process) refinement/regridding maps are the ones the region keeps: no parallel_map result is discarded "
                            "(shared with C13)", encodes=["hypnotoad.core.mesh:MeshRegion.distributePointsNonorthogonal", "hypnotoad.core.mesh:MeshRegion.__init__"],
